@@ -19,6 +19,8 @@ inductive Loc where
   | table (name : Nat)         -- a file-scope / static object of libxrl other than Crystal_arr (encoded name)
   | crystals                   -- Crystal_arr, the built-in crystal collection
   | locale                     -- the process-global locale; C code reaches it only through setlocale
+  | userArr (k : Nat)          -- a Crystal_Array created by the APPLICATION and visible to several callers / threads (a user array
+                               -- used by one caller only is that caller's `owned` memory); not an object of libxrl
   | owned (owner slot : Nat)   -- memory owned by caller `owner`
   deriving DecidableEq
 
@@ -30,6 +32,7 @@ structure Shared where
   tables   : Nat → Val
   crystals : Val
   locale   : Val
+  user     : Nat → Val := fun _ => 0
 
 structure State where
   sh   : Shared
@@ -39,6 +42,7 @@ def Shared.get (s : Shared) : Loc → Val
   | .table n => s.tables n
   | .crystals => s.crystals
   | .locale => s.locale
+  | .userArr k => s.user k
   | .owned _ _ => 0
 
 def State.get (s : State) : Loc → Val
@@ -49,6 +53,7 @@ def State.set (s : State) : Loc → Val → State
   | .table n, v => { s with sh := { s.sh with tables := fun m => if m = n then v else s.sh.tables m } }
   | .crystals, v => { s with sh := { s.sh with crystals := v } }
   | .locale, v => { s with sh := { s.sh with locale := v } }
+  | .userArr k, v => { s with sh := { s.sh with user := fun m => if m = k then v else s.sh.user m } }
   | .owned o j, v => { s with heap := fun o' j' => if o' = o ∧ j' = j then v else s.heap o' j' }
 
 theorem State.get_set_same (s : State) (x : Loc) (v : Val) : (s.set x v).get x = v := by
@@ -59,11 +64,12 @@ theorem State.get_set_ne (s : State) {x y : Loc} (v : Val) (h : y ≠ x) : (s.se
   all_goals (intro h1 h2; exact absurd (by rw [h1, h2]) h)
 
 theorem Shared.ext_get {a b : Shared} (h : ∀ x, x.shared = true → a.get x = b.get x) : a = b := by
-  cases a with | mk ta ca la => cases b with | mk tb cb lb =>
+  cases a with | mk ta ca la ua => cases b with | mk tb cb lb ub =>
   have h1 : ta = tb := funext fun n => h (.table n) rfl
   have h2 : ca = cb := h .crystals rfl
   have h3 : la = lb := h .locale rfl
-  subst h1; subst h2; subst h3; rfl
+  have h4 : ua = ub := funext fun n => h (.userArr n) rfl
+  subst h1; subst h2; subst h3; subst h4; rfl
 
 theorem State.get_shared (s : State) {x : Loc} (h : x.shared = true) : s.get x = s.sh.get x := by
   cases x <;> simp_all [State.get, Loc.shared]
